@@ -10,6 +10,7 @@
 #include <cstring>
 #include <cinttypes>
 #include <cerrno>
+#include <cstdarg>
 #include <string>
 #include <vector>
 #include <map>
@@ -40,6 +41,8 @@
 
 // the file-local class KernelSocketStream
 #include "net/kernel_socket.cpp"
+// the file-local class EventEngineEPoll
+#include "io/epoll.cpp"
 
 using photon::net::KernelSocketStream;
 
@@ -136,11 +139,13 @@ extern "C" ssize_t sendfile(int out, int in, off_t* off, size_t count) {
     return mock_sys(4, 0, nullptr, 0, off, count);
 }
 
+static int (*g_epfd_wait)(int fd, photon::Timeout timeout) = nullptr;    // part 2: readiness of the mock epoll fd
 class ScriptedEngine : public photon::MasterEventEngine {
 public:
     photon::MasterEventEngine* real = nullptr;
     int wait_for_fd(int fd, uint32_t interest, photon::Timeout timeout) override {
         if (interest == 0) return 0;                       // KernelSocketStream::close()
+        if (g_epfd_wait && fd == 900) return g_epfd_wait(fd, timeout);
         if (!(D.active && fd == MOCKFD)) return real->wait_for_fd(fd, interest, timeout);
         if (D.exhausted || D.hang || D.wt.empty()) { D.exhausted = true; errno = EBADF; return -1; }
         WaitAns a = D.wt.front(); D.wt.pop_front();
